@@ -700,7 +700,9 @@ func writeEvidence(id string, cfg *PropConfig, opts checkOpts, res *checkResult,
 			continue
 		}
 		if o.Known {
-			nProof-- // listed known finding: reported separately, not part of the proved set
+			if !o.Bounded {
+				nProof-- // listed known finding: reported separately, not part of the proved set
+			}
 			continue
 		}
 		if !o.Bounded && o.ok() {
